@@ -214,7 +214,7 @@ theorem domainAllowed_eq (cc : CreateContent) (dom : Bytes) :
   · simp [*]
   · split <;> simp [*]
 
-abbrev lib := Departures.asImplemented
+abbrev lib := Departures.library
 
 theorem userPowerLevel_eq (c : Ctx) (u : Bytes) (h : c.createEvent.isSome = true) :
     c.userPowerLevel u = .ok (powerOf lib c u) := by
@@ -250,7 +250,8 @@ def commonFormula (c : Ctx) (e : Event) (sm : MemberContent) : Bool :=
   match userOf e.sender with
   | some u =>
     ruleCreatePresent c e && ruleFederate c u.domain && sm.membership == b!"join"
-    && decide (powerOf lib c e.sender ≥ requiredLevel c e) && ruleAtStateKey e
+    && decide (powerOf lib c e.sender ≥ requiredLevel c e)
+    && (e.type == b!"m.room.third_party_invite" || ruleAtStateKey e)
   | none => false
 
 theorem commonChecks_eq (c : Ctx) (p : Provider) (hf : Fresh p c) (e : Event) (sm : MemberContent)
